@@ -102,6 +102,27 @@ func init() {
 				}
 			}
 		}
+		// the process has already seen the issuers (a tool that lints a CA file before the certificates it issued): what
+		// it remembers of them must not make a verdict depend on whether a signature verifies.  The generated issuer and
+		// every CA certificate of the corpus are linted first; leaves whose authorityKeyIdentifier does NOT name the
+		// issuer's key, and one that does, join the population
+		if ca, err := safeParseCert(getKit().caCert.Raw); err == nil {
+			zlint.LintCertificate(ca)
+		}
+		for _, cc := range corpus.Certs {
+			if cc.Cert.IsCA {
+				zlint.LintCertificate(cc.Cert)
+			}
+		}
+		for i := 0; i < 6; i++ {
+			t := leafTemplate()
+			if i > 0 {
+				t.ExtraExtensions = append(t.ExtraExtensions, pkix.Extension{Id: []int{2, 5, 29, 35}, Value: encTLV(0x30, encTLV(0x80, rng.Bytes(20-i%2)))})
+			}
+			if der, c, err := issue(t, nil); err == nil {
+				targets = append(targets, CorpusCert{fmt.Sprintf("generated-leaf-aki-%d", i), der, c})
+			}
+		}
 		classes["generated: issuer differs from subject, signed with the certified key"] = len(targets) - len(corpus.Certs)
 		// the complete runs first; then one placeholder signature at a time over the whole population, back to back: a
 		// pre-issuance pipeline that lints many to-be-signed certificates carrying the same dummy signature
